@@ -187,7 +187,10 @@ def run(ctx):
                     ctx.violation('C20/long-composite@%s' % kind_, '%s composite with %d unrelated records before its nested records reads %r, without them %r'
                                   % (kind_, n_, texts[1], texts[0]), {'kind': 'code->spec', 'stream': []})
     ctx.extra['long_composites'] = nscale
-    validate_streams(ctx, cases, 'full', 'c20val')
+    # C20 pins what the COMPOSITE traces carry (fields of page-fault / launch / sampler traces); event lists and the other
+    # records' traces belong to C04 / C08
+    validate_streams(ctx, cases, 'full', 'c20val',
+                     own=lambda cl, cls: cl in ('raised', 'shape') or (cl == 'fields' and cls in ('VMF', 'LAUNCH', 'PERF')))
     ctx.sample({'case': cases[40][0], 'events': [dict(a.abs) for a in cases[40][2]]})
     ctx.extra['code_to_spec'] = {'windows': len(cases)}
     ctx.assumptions += ['first nested real-fault record of an undecoded kind followed by a decoded one: pid/protection '
